@@ -9,6 +9,38 @@ use std::time::Instant;
 /// heap budget for parsing `n` bytes. One record costs `size_of::<ResourceRecord>()` (144 bytes,
 /// doubled by `Vec` growth) and a two-byte pointer can expand to 127 labels of 24 bytes each, again
 /// doubled, for every 12 bytes of input: about 560 bytes per input byte in the worst case.
+/// tiny messages whose question name is a pointer into the 12 header bytes, the header byte it lands on being a
+/// label length that makes the label end one before, at, or one past the end of the message (the label then covers
+/// the pointer's own octets); with and without QTYPE/QCLASS after the name; and an MX record whose exchange is a
+/// pointer to the low octet of its own preference (the RDATA is parsed on a slice cut at RDLENGTH)
+pub fn pointer_into_header_messages() -> Vec<Vec<u8>> {
+    let mut out = vec![];
+    for t in 0..12usize {
+        for tail in [0usize, 4] {
+            for d in [-1i64, 0, 1] {
+                let mut m = vec![0u8, 0, 0, 0, 0, 1, 0, 0, 0, 0, 0, 0, 0xC0, t as u8];
+                m.extend(std::iter::repeat(1u8).take(tail));
+                let l = m.len() as i64 - t as i64 - 1 + d;
+                if l < 1 || l > 63 { continue; }
+                m[t] = l as u8;
+                if t == 2 || t == 3 { m[2] &= 0x7F; m[3] &= 0xBF; }
+                out.push(m);
+            }
+        }
+    }
+    for pref_low in [1u8, 2, 3, 4] {
+        // header, answer: owner root, MX, RDLENGTH 4: preference (0, pref_low), exchange = pointer to the preference's low octet
+        let mut m = vec![0u8, 0, 0x80, 0, 0, 0, 0, 1, 0, 0, 0, 0, 0, 0, 15, 0, 1, 0, 0, 0, 0, 0, 4, 0, pref_low];
+        let at = m.len() - 1;
+        m.push(0xC0 | (at >> 8) as u8); m.push(at as u8);
+        out.push(m.clone());
+        m.extend_from_slice(&[0, 0, 1, 0, 1, 0, 0, 0, 0, 0, 4, 1, 2, 3, 4]);
+        m[7] = 2;
+        out.push(m);
+    }
+    out
+}
+
 pub fn heap_budget(n: usize) -> usize {
     640 * n + 16 * 1024
 }
@@ -254,6 +286,37 @@ pub fn cases(tier: &str, seed: u64) -> Vec<Case> {
         let mut c = parse_case(&b, "pure-pointer-chain");
         if total > 4000 { c.proj = Proj::None; c.op = String::new(); }
         v.push(c);
+    }
+    // a long run of one-byte labels as the first question's name, and many small questions that point at it: no
+    // name may grow beyond 255 octets whether it is read in place or reached through a pointer (the limit is part of
+    // what bounds the work per name)
+    for (labels, extra) in [(130usize, 0usize), (300, 50), (2400, 500)] {
+        let mut b = vec![0u8, 9, 0, 0];
+        b.extend_from_slice(&((1 + extra) as u16).to_be_bytes());
+        b.extend_from_slice(&[0, 0, 0, 0, 0, 0]);
+        for k in 0..labels { b.push(1); b.push(b'a' + (k % 26) as u8); }
+        b.push(0);
+        b.extend_from_slice(&[0, 1, 0, 1]);
+        for _ in 0..extra { b.extend_from_slice(&[0xC0, 12, 0, 1, 0, 1]); }
+        let mut c = parse_case(&b, "label-run");
+        if labels > 300 { c.proj = Proj::None; c.op = String::new(); }
+        v.push(c);
+        // the same run inside the opaque RDATA of a first answer, reached only through the backward pointers of the
+        // owners of the records after it
+        {
+            let mut a = vec![0u8, 9, 0x80, 0, 0, 0];
+            a.extend_from_slice(&((1 + extra) as u16).to_be_bytes());
+            a.extend_from_slice(&[0, 0, 0, 0]);
+            a.extend_from_slice(&[0, 0, 10, 0, 1, 0, 0, 0, 0]);
+            a.extend_from_slice(&((2 * labels + 1) as u16).to_be_bytes());
+            let run = a.len();
+            for k in 0..labels { a.push(1); a.push(b'a' + (k % 26) as u8); }
+            a.push(0);
+            for _ in 0..extra { a.push(0xC0 | (run >> 8) as u8); a.push(run as u8); a.extend_from_slice(&[0, 1, 0, 1, 0, 0, 0, 0, 0, 0]); }
+            let mut c2 = parse_case(&a, "label-run");
+            if labels > 300 { c2.proj = Proj::None; c2.op = String::new(); }
+            v.push(c2);
+        }
     }
     // many small records of one kind at growing offsets: a per-record cost that depends on the record's
     // position in the message (a buffer sized from the message prefix, a rescan from the start) makes
